@@ -64,6 +64,7 @@ SeedTable == <<
   \* 7: strings and names with HTML-sensitive and other awkward characters (C12, C15)
   Obj(<< Mem(<<107,8233>>, N1),                                  \* a member NAME with U+2029 and nothing else to escape
          Mem(<<60,107>>, Str(<<38,62>>)),
+         Mem(<<110,10,7>>, N2),                                    \* a member NAME with control characters and nothing else to escape
          Mem(ca, Obj(<<Mem(ck, SLt)>>)),
          Mem(cb, Arr(<<Str(<<8232>>), Str(<<34,92,1>>), Str(<<128512>>), Str(<<8361, 8744, 8233>>)>>)) >>),   \* U+20A9 U+2228: UTF-8 E2 xx A9 / A8
   \* 8, 9: empty roots
